@@ -6,6 +6,8 @@ extern "C" {
 void CB_Btdmp_interrupt_handler(::Btdmp *self);
 void CB_Btdmp_audio_callback(::Btdmp *self, arr_s16_2 a0);
 }
+#define BRIDGE_WANT_Btdmp
+#define BRIDGE_WANT_CoreTiming_Callbacks
 #include "btdmp_bridge.inc"
 namespace {
 struct Rig {
